@@ -682,7 +682,7 @@ def main(rep, ws, tier):
     for (tu7, pairs7), t in zip(g7, types):
         for p in pairs7:
             nex += 1
-            c07.check_pair(rep, an7[tu7], p, t, rn=lambda k: 'R16.exc')
+            c07.check_pair(rep, an7[tu7], p, t, rn=lambda k: 'R16.exc', exact=False)        # same function, not bit-identical arithmetic: that is C07's claim
     rep.floor('throwing frustum twins', nex, 10 * len(types))
     narrowing(rep, ws, [gen('d')], 'R16.prec')
     rep.floor('frustum obligations', len(rep.obs), 20 * len(types))
